@@ -4,3 +4,4 @@ import RSVerif.Properties.C13
 #print axioms RS.encode_smul
 #print axioms RS.encode_zero
 #print axioms RS.decode_add
+#print axioms RS.source_codecs_are_linear
